@@ -246,7 +246,7 @@ void FnEmitter::emitInst(const Instruction& I) {
       case CmpInst::ICMP_ULE: op = "<="; break;
       default: refuse("signed pointer comparison");
       }
-      assign(I, "((uint64_t)" + a + " " + op + " (uint64_t)" + b + ")");
+      assign(I, "VF_PTRCMP(" + a + ", " + op + ", " + b + ")");
       return;
     }
     unsigned n = T.bits(OT);
@@ -326,7 +326,7 @@ void FnEmitter::emitInst(const Instruction& I) {
     if (T.DL.getTypeAllocSize(Ty) == 0) return;
     std::string p = val(L.getPointerOperand());
     if (L.isAtomic())
-      body << "  VF_ATOMIC_LOAD(" << lname[&I] << ", " << ty(Ty) << ", " << p << ", " << orderName(L.getOrdering()) << ");\n";
+      body << "  VF_ATOMIC_LOAD(" << lname[&I] << ", " << lvalue(L.getPointerOperand(), Ty) << ", " << p << ", " << orderName(L.getOrdering()) << ");\n";
     else
       assign(I, lvalue(L.getPointerOperand(), Ty));
     return;
@@ -337,7 +337,7 @@ void FnEmitter::emitInst(const Instruction& I) {
     if (T.DL.getTypeAllocSize(VT) == 0) return;
     std::string p = val(S.getPointerOperand());
     if (S.isAtomic())
-      body << "  VF_ATOMIC_STORE(" << ty(VT) << ", " << p << ", " << val(S.getValueOperand()) << ", " << orderName(S.getOrdering()) << ");\n";
+      body << "  VF_ATOMIC_STORE(" << lvalue(S.getPointerOperand(), VT) << ", " << p << ", " << val(S.getValueOperand()) << ", " << orderName(S.getOrdering()) << ");\n";
     else
       body << "  " << lvalue(S.getPointerOperand(), VT) << " = " << val(S.getValueOperand()) << ";\n";
     return;
@@ -345,7 +345,7 @@ void FnEmitter::emitInst(const Instruction& I) {
   case Instruction::AtomicCmpXchg: {
     auto& X = cast<AtomicCmpXchgInst>(I);
     Type* VT = X.getCompareOperand()->getType();
-    body << "  VF_ATOMIC_CAS(" << lname[&I] << ", " << ty(VT) << ", " << val(X.getPointerOperand()) << ", "
+    body << "  VF_ATOMIC_CAS(" << lname[&I] << ", " << ty(VT) << ", " << lvalue(X.getPointerOperand(), VT) << ", " << val(X.getPointerOperand()) << ", "
          << val(X.getCompareOperand()) << ", " << val(X.getNewValOperand()) << ", "
          << orderName(X.getSuccessOrdering()) << ", " << orderName(X.getFailureOrdering()) << ");\n";
     return;
@@ -372,7 +372,7 @@ void FnEmitter::emitInst(const Instruction& I) {
     default: refuse("atomicrmw operation");
     }
     if (VT->isIntegerTy()) nv = T.mask("(" + nv + ")", n);
-    body << "  VF_ATOMIC_RMW(" << lname[&I] << ", " << ty(VT) << ", " << val(X.getPointerOperand()) << ", " << nv
+    body << "  VF_ATOMIC_RMW(" << lname[&I] << ", " << ty(VT) << ", " << lvalue(X.getPointerOperand(), VT) << ", " << val(X.getPointerOperand()) << ", " << nv
          << ", " << orderName(X.getOrdering()) << ");\n";
     return;
   }
